@@ -473,6 +473,20 @@ class Interp:
             env[tgt.id] = v
         elif isinstance(tgt, (ast.Tuple, ast.List)):
             vs = list(v) if isinstance(v, (tuple, list)) else None
+            stars = [i for i, t in enumerate(tgt.elts)
+                     if isinstance(t, ast.Starred)]
+            if vs is not None and len(stars) == 1 and \
+                    len(vs) >= len(tgt.elts) - 1:
+                # a, *rest, z = ...
+                i = stars[0]
+                n_after = len(tgt.elts) - i - 1
+                for t, x in zip(tgt.elts[:i], vs[:i]):
+                    self.assign(t, x, env)
+                self.assign(tgt.elts[i].value,
+                            vs[i:len(vs) - n_after], env)
+                for t, x in zip(tgt.elts[i + 1:], vs[len(vs) - n_after:]):
+                    self.assign(t, x, env)
+                return
             if vs is None or len(vs) != len(tgt.elts):
                 raise AnalysisError(f"cannot unpack {v!r} into "
                                     f"{ast.unparse(tgt)}")
